@@ -1282,6 +1282,72 @@ func c13LoadedField(v ssa.Value, isObj func(ssa.Value) bool) string {
 	return fieldOf(fa.X.Type(), fa.Field).Name()
 }
 
+// c13ResetValue: while the fields named in zeroed of the object hold their zero value, v is zero: v is a load of such
+// a field, or it is field f of an element of a LOCAL literal table (`[...]struct{..}{{.., obj.F}, ..}`, read directly or through the per-iteration copy `for _, e := range tbl`) whose EVERY row holds in f a
+// load of such a field. Which row is read does not matter then, so nothing is required of the index or of the loop.
+// The table facts come from c18Tables: the array is written only by its literal (constant indices, each field once,
+// outside loops, completely before it is read or copied) and is otherwise only read; the element copy is assigned
+// once, in the iteration that reads it, and only read field by field.
+func c13ResetValue(v ssa.Value, isObj func(ssa.Value) bool, zeroed map[string]bool) bool {
+	if f := c13LoadedField(v, isObj); f != "" {
+		return zeroed[f]
+	}
+	for i := 0; i < 4; i++ {
+		switch x := v.(type) {
+		case *ssa.Convert:
+			v = x.X
+			continue
+		case *ssa.ChangeType:
+			v = x.X
+			continue
+		}
+		break
+	}
+	in, ok := v.(ssa.Instruction)
+	if !ok || in.Parent() == nil {
+		return false
+	}
+	// only the shapes elemField understands; the copy form needs the loop the copy is made in
+	switch x := v.(type) {
+	case *ssa.Field:
+	case *ssa.UnOp:
+		fa, isFA := x.X.(*ssa.FieldAddr)
+		if !isFA || x.Op != token.MUL {
+			return false
+		}
+		if _, viaCopy := fa.X.(*ssa.Alloc); viaCopy && InnermostLoop(Loops(in.Parent()), in.Block()) == nil {
+			return false
+		}
+	default:
+		return false
+	}
+	ts := newC18Tables(in.Parent())
+	ref, why := ts.elemField(v, InnermostLoop(ts.loops, in.Block()))
+	if why != "" || ref.tbl == nil {
+		return false
+	}
+	// the table is complete before the value is read (direct reads; a copied snapshot is checked by c18Tables.of)
+	for _, w := range ref.tbl.writes {
+		if !c18Precedes(w, in) {
+			return false
+		}
+	}
+	for k := 0; k < ref.tbl.n; k++ {
+		row := ref.tbl.elem[k]
+		if row == nil {
+			return false
+		}
+		cell, has := row[ref.field]
+		if !has {
+			return false
+		}
+		if f := c13LoadedField(cell, isObj); f == "" || !zeroed[f] {
+			return false
+		}
+	}
+	return ref.tbl.n > 0
+}
+
 // c13DeadAfterReset: the branch outcome g cannot occur while the fields named in zeroed of the object hold their
 // zero value: g requires `obj.F op k` (or the boolean obj.F itself) and `0 op k` is false.
 func c13DeadAfterReset(g Guard, isObj func(ssa.Value) bool, zeroed map[string]bool) bool {
@@ -1290,7 +1356,7 @@ func c13DeadAfterReset(g Guard, isObj func(ssa.Value) bool, zeroed map[string]bo
 	if neg {
 		outcome = !outcome
 	}
-	if f := c13LoadedField(c, isObj); f != "" && zeroed[f] {
+	if c13ResetValue(c, isObj, zeroed) {
 		return outcome // the branch needs the flag to be set
 	}
 	// the comparison is evaluated for the concrete value 0 (exact for floating point too)
@@ -1305,12 +1371,11 @@ func c13DeadAfterReset(g Guard, isObj func(ssa.Value) bool, zeroed map[string]bo
 		return false
 	}
 	zero := constant.MakeInt64(0)
-	fx, fy := c13LoadedField(bin.X, isObj), c13LoadedField(bin.Y, isObj)
 	var k *ssa.Const
 	switch {
-	case fx != "" && zeroed[fx]:
+	case c13ResetValue(bin.X, isObj, zeroed):
 		k, _ = bin.Y.(*ssa.Const)
-	case fy != "" && zeroed[fy]:
+	case c13ResetValue(bin.Y, isObj, zeroed):
 		k, _ = bin.X.(*ssa.Const)
 		op = map[token.Token]token.Token{token.EQL: token.EQL, token.NEQ: token.NEQ, token.LSS: token.GTR, token.GTR: token.LSS, token.LEQ: token.GEQ, token.GEQ: token.LEQ}[op]
 	}
